@@ -44,6 +44,27 @@ R = {
  "C19-m4": ("caught", "e2e:findcontent-content-corrupted:common-v1", "quick tier as built"),
  "C20-m3": ("caught after strengthening", "random-part-never-reaches-beyond-8-closest-covered", "every per-round demand still holds under this change; a distributional monitor now accumulates, over all rounds with covered candidates beyond the 8 closest, the probability under a uniform choice that none of them is ever picked, and reports when that falls below 1e-12."),
  "C20-m4": ("caught", "radius-report-lost:ping:0/1/2", "quick tier as built"),
+ # round 3 (asked for: other files than the anchors, rare branches, numeric edges, time, concurrency, start-up/restart, cooperating edits)
+ "C01-m5": ("caught", "panic:validation.(*HistoricalSummariesProvider).GetHistoricalSummary:index-out-of-range", "quick tier as built (same change as C01-m4, found again independently; the crafted consistent header items added after round 2 reach it)"),
+ "C01-m6": ("caught after strengthening", "crash:github.com/zen-eth/shisui/portalwire.(*Table).getNode", "no request ever arrived while a node was starting; a start/stop-under-traffic segment now starts and stops fresh nodes while four peers with established sessions send well-formed requests back to back."),
+ "C02-m5": ("caught after strengthening", "accept-header:ssz-malformed, accept-number:ssz-malformed", "single-field mutations never produce a coordinated non-canonical layout; a structural class now inserts a gap behind the offset table and moves the offsets (headers, bodies, receipts)."),
+ "C02-m6": ("caught", "accept-header:proof-wrong-size, accept-header:hash-mismatch", "quick tier as built (network scenario added in round 1)"),
+ "C03-m5": ("caught", "accept-invalid:deneb:slot-8192, accept-invalid:capella:slot-8192", "quick tier as built"),
+ "C03-m6": ("caught", "accept-invalid:deneb:wrong-era-rules:capella-rules, accept-invalid:capella:wrong-era-rules:deneb-rules", "quick tier as built"),
+ "C04-m5": ("caught", "get-resurrects", "quick tier as built"),
+ "C04-m6": ("caught", "get-error", "quick tier as built now (same change as C04-m3, found again independently)"),
+ "C05-m5": ("caught after strengthening", "usage-under-reported", "no history restarted a store whose persisted usage exceeds the capacity; a restart-over-capacity scenario does (filled under 2 MB, reopened with 1 MB, puts at once) and the yield hook holds any prune pass that runs outside the open call and outside every put between its scan and its commit until a put has completed."),
+ "C05-m6": ("caught", "usage-under-reported", "quick tier as built (same change as C05-m2, found again independently)"),
+ "C06-m5": ("caught", "radius-metric:retained-outside-radius:concurrent", "quick tier as built (same change as C06-m2 / C06-m4, found again independently)"),
+ "C06-m6": ("caught", "inrange-path:gossip-target-out-of-range, inrange-path:gossip-covered-peer-skipped", "quick tier as built (gossip path added in round 1)"),
+ "C07-m5": ("caught after strengthening", "crash:github.com/zen-eth/shisui/portalwire.(*Table).nodeAdded", "no check ran with go-ethereum metrics enabled; C07 now switches them on at run time for the second half of every run, C01 has a metrics pass in the quick tier, and the thorough tier of every check runs with metrics enabled."),
+ "C07-m6": ("caught", "race:portalwire.(*revalidationList).remove <-> portalwire.(*tableRevalidation).handleResponse and 4 more state races", "quick tier as built (race detector, state races of the anchored table functions)"),
+ "C08-m5": ("caught after strengthening", "different-bytes:utp:version-0-asker-without-version-entry", "every node of the harness had an explicit version list; a directed pairing now configures the responder the way portal/node.go does (the package's default list as its entry) and asks from a version-0 client whose record has no version entry."),
+ "C08-m6": ("caught", "held-content-not-delivered:utp:syn-before-accept", "quick tier as built (same change as C08-m2 / C08-m4; the demonstration is timing-sensitive and failed once on the clean tree under load, passed when re-run)"),
+ "C09-m5": ("caught", "in-flight-not-exclusive", "quick tier as built (porcupine on per-key in-flight histories)"),
+ "C09-m6": ("caught after strengthening", "no-accept-reply, verdict-count", "as for C08-m5: every second world now has a production-configured node and a version-0 offerer without version entry."),
+ "C10-m5": ("caught after strengthening", "lookup-never-finishes:refresh-at-stop", "only lookups started by the monitor were driven; part C stops a node while its table's own refresh lookup has a query in flight."),
+ "C10-m6": ("caught after strengthening", "nodes-lookup-omits-closest-seen-node", "node lookups over the network were judged structurally only and every listed record was admitted to the table; part C lists validly signed records that share one public /24 (the table declines most) and compares the result with the 16 closest of everything the lookup saw."),
  # round 1, decided later
  "C17-m1": ("caught after strengthening", "usage-under-reported", "crash points lay only between file-system operations; torn-write images (a prefix of the last write survives) were added."),
  "C17-m2": ("caught", "usage-under-reported", "quick tier as built (re-run)"),
